@@ -939,6 +939,11 @@ class ModelImpl(*_model_impl_base):
         else:
             return space
 
+    def set_allow_none(self, value):
+        self.allow_none = value
+        for space in self.spaces.values():
+            space.clear_on_allow_none()
+
     def _check_sanity(self):
 
         for name, r in self.global_refs.items():
@@ -1476,6 +1481,17 @@ class SpaceManager(SharedSpaceOperations):
                 flags, define, func, enable_cache
             )
             define = False  # Do not define derived cells
+
+    def set_cells_allow_none(self, cells, value):
+        """Set allow_none of cells and of the cells derived from it"""
+        for space in self._get_subs(cells.parent, skip_self=False):
+            c = space.cells[cells.name]
+            if c is not cells and (c.is_defined() or self.get_deriv_bases(
+                    c, defined_only=True)[0] is not cells):
+                continue   # Skip when c is not derived from cells
+            space.clear_subs_rootitems()
+            self.model.clear_obj(c)     # None values and their dependents
+            c.allow_none = value
 
     def set_cells_formula(self, cells, func):
         self.set_cells_property(cells, UserCellsImpl.PROP_FORMULA, func, True)
